@@ -59,8 +59,10 @@ class _YieldingFile(object):
         self.chunks = []
 
     def write(self, data):
-        if not isinstance(data, bytes):
+        if isinstance(data, str):
             raise TypeError("binary file")
+        if isinstance(data, (bytearray, memoryview)):
+            data = bytes(data)  # real binary files take any bytes-like object and copy it at once
         if data:
             self.chunks.append(bytes(data))
             if self.sched is not None:
@@ -345,6 +347,8 @@ def body_E2(ctx):
     ntasks = sh.get("tasks", 2)
     nawaits = sh.get("awaits", 3)
     order = []
+    cancelled = []
+    progress = {i: [] for i in range(ntasks)}
 
     async def main():
         loop = asyncio.get_event_loop()
@@ -362,6 +366,18 @@ def body_E2(ctx):
                 await fut
 
             async def worker(i):
+                try:
+                    await worker_body(i)
+                except asyncio.CancelledError:
+                    # cancelled while suspended inside its action(s): every block this task had
+                    # entered has been left, so its current action is again the one it started with
+                    who = "c%d" % i
+                    st = Stack(ctx, who, base=A)
+                    st.check("in the cancellation handler")
+                    log_message("c:cleanup", who=who)
+                    st.check("after the clean-up message")
+
+            async def worker_body(i):
                 who = "c%d" % i
                 st = Stack(ctx, who, base=A)  # a task inherits the creator's current action
                 st.check("at task start")
@@ -379,12 +395,15 @@ def body_E2(ctx):
                             st.items.pop()
                         st.check("after leaving the shared action's context()")
                     log_message("c:m", who=who)
+                    progress[i].append("m")
                     if nawaits >= 2:
                         with start_action(action_type="c:b", who=who) as b:
+                            progress[i].append("b-enter")
                             st.items.append(b)
                             await gate(i, 1)
                             st.check("after await inside c:b")
                             st.items.pop()
+                        progress[i].append("b-exit")
                         st.check("after c:b")
                     if nawaits >= 3:
                         await gate(i, 2)
@@ -402,7 +421,13 @@ def body_E2(ctx):
                 live = sorted(i for i, f in waiting.items() if not f.done())
                 if not live:
                     break
-                i = live[ctx.choose(len(live), "gate to open")]
+                k = ctx.choose(len(live) * (2 if sh.get("cancel") and not cancelled else 1), "gate to open / task to cancel")
+                i = live[k % len(live)]
+                if k >= len(live):
+                    cancelled.append(i)
+                    order.append(-1 - i)
+                    tasks[i].cancel()  # e.g. a TaskGroup sibling failed, or a timeout fired
+                    continue
                 order.append(i)
                 waiting[i].set_result(None)
             await asyncio.gather(*tasks)
@@ -422,6 +447,13 @@ def body_E2(ctx):
     expected_children = [("m", "main:m", "main")]
     for i in range(ntasks):
         who = "c%d" % i
+        if i in cancelled:
+            kids = [("m", "c:m", who)] if "m" in progress[i] else []
+            if "b-enter" in progress[i]:
+                kids.append(("a", "c:b", "succeeded" if "b-exit" in progress[i] else "failed", ()))
+            expected_children.append(("a", "c:a", "failed", tuple(sorted(kids, key=repr))))
+            expected_children.append(("m", "c:cleanup", who))
+            continue
         kids = [("m", "c:m", who)]
         if nawaits >= 2:
             kids.append(("a", "c:b", "succeeded", ()))
@@ -432,6 +464,8 @@ def body_E2(ctx):
     if switches >= 2:
         ctx.nontrivial(tuple(order))
         ctx.reached("interleaved")
+    if cancelled:
+        ctx.reached("cancelled")
     ctx.sample({"gate_order": order})
     return received
 
@@ -471,9 +505,9 @@ OBLIGATIONS = [
         "X",
         desc="asyncio tasks created inside an action with nested actions spanning awaits: all gate orders",
         functions=["current_action", "start_action", "Action.__enter__/__exit__", "log_message"],
-        shards={"quick": [{"tasks": 2, "awaits": 3}, {"tasks": 3, "awaits": 2}, {"tasks": 2, "awaits": 2, "shared": 1}], "thorough": [{"tasks": 2, "awaits": 3}, {"tasks": 3, "awaits": 3}, {"tasks": 3, "awaits": 2, "shared": 1}]},
+        shards={"quick": [{"tasks": 2, "awaits": 3}, {"tasks": 3, "awaits": 2}, {"tasks": 2, "awaits": 2, "shared": 1}, {"tasks": 2, "awaits": 3, "cancel": 1}], "thorough": [{"tasks": 2, "awaits": 3}, {"tasks": 3, "awaits": 3}, {"tasks": 3, "awaits": 2, "shared": 1}, {"tasks": 3, "awaits": 2, "cancel": 1}]},
         twin=[{"tasks": 2, "awaits": 3, "twin_label": "interleaved"}],
         timeout={"quick": 100, "thorough": 600},
-        bounds={"quick": "2 tasks x 3 awaits (20 orders), 3 tasks x 2 awaits (90 orders), 2 tasks that additionally enter the shared parent action's context() across an await; real asyncio loop", "thorough": "3 tasks x 3 awaits (1680 orders)"},
+        bounds={"quick": "2 tasks x 3 awaits (20 orders), 3 tasks x 2 awaits (90 orders), 2 tasks that additionally enter the shared parent action's context() across an await; 2 tasks x 3 awaits where one task is cancelled at any suspension point and logs a clean-up message; real asyncio loop", "thorough": "3 tasks x 3 awaits (1680 orders); cancellation with 3 tasks x 2 awaits"},
     ),
 ]
